@@ -229,13 +229,23 @@ func VerifC04_ValidateSequence() {
 
 // VerifCertSeq (harness helper for other packages): n valid, store-admissible
 // certificates for instances first.. under the evolving tables verifTable(j),
-// signed (ideal aggregate) by the three strongest members (a strong quorum of every table), each
-// finalizing two tipsets on top of the head of its predecessor.
+// signed (ideal aggregate) by the three strongest members (a strong quorum of
+// every table), each finalizing two tipsets on top of the head of its predecessor.
 func VerifCertSeq(first uint64, n int) ([]*FinalityCertificate, []gpbft.PowerEntries) {
-	tables := []gpbft.PowerEntries{verifTable(0)}
+	idx := make([]int, n+1)
+	for j := range idx {
+		idx[j] = j
+	}
+	return VerifCertSeqTables(first, idx)
+}
+
+// VerifCertSeqTables: like VerifCertSeq, certificate j moving the committee
+// from verifTable(idx[j]) to verifTable(idx[j+1]) (equal indices: empty delta).
+func VerifCertSeqTables(first uint64, idx []int) ([]*FinalityCertificate, []gpbft.PowerEntries) {
+	tables := []gpbft.PowerEntries{verifTable(idx[0])}
 	var out []*FinalityCertificate
-	for j := 0; j < n; j++ {
-		table, next := verifTable(j), verifTable(j+1)
+	for j := 0; j+1 < len(idx); j++ {
+		table, next := verifTable(idx[j]), verifTable(idx[j+1])
 		be := int64(10 + 2*j)
 		chain := gpbft.VerifChain(be, byte(be), byte(be+1), byte(be+2))
 		supp := gpbft.SupplementalData{}
@@ -256,7 +266,7 @@ func VerifCertSeq(first uint64, n int) ([]*FinalityCertificate, []gpbft.PowerEnt
 }
 
 // VerifForge returns an invalid variant of a valid certificate of VerifCertSeq
-// (j = its position): 0 aggregate of a different signer set, 1 under-powered
+// (j = the index of the table it is signed under): 0 aggregate of a different signer set, 1 under-powered
 // signer set with its correct aggregate, 2 delta (and committed table) of a
 // different table under the old signature, 3 signed for another instance.
 func VerifForge(c *FinalityCertificate, j int, kind int) *FinalityCertificate {
